@@ -25,13 +25,13 @@ SCHED_RULE = ('seeded random schedules + a systematic family (slow always-on pro
               'quiet/deferred invocation actually occurred (measured on the trace); distinct by scenario description')
 
 prop('C01', 'other',
-     'PROVED on the real source of Engine.run_for (463 obligations, all loops cut at invariants, any number of processes visited in any order, any sequence of timestep/condition answers, any call sequence -- the invariant is the pre- and postcondition): ghost ledger on Defer objects: a pending update is never overwritten (assert before the store into front), every token handed to _send_updates is issued, unconsumed and due exactly now, _send_updates consumes each collected token exactly once (Defer.get precondition) and no other, consumed tokens satisfy applied_at == due, no pending update crosses a call boundary. ASSUMED: behavioural contracts of user processes and of Defer.get / Store.apply_update (trusted, bounded-checked), floats as reals, no global_time_precision (that instance is bounded only), interval > 0, and the region of the known finding F-C03-shrink is excluded by an explicit environment assumption. BOUNDED: the observable form (accumulating variables at every emitted time == sum of updates whose interval ended) and the token discipline on the real engine.',
+     'PROVED on the real source of Engine.run_for (511 obligations, all loops cut at invariants, any number of processes visited in any order, any sequence of timestep/condition answers, any call sequence -- the invariant is the pre- and postcondition): ghost ledger on Defer objects: a pending update is never overwritten (assert before the store into front), every token handed to _send_updates is issued, unconsumed and due exactly now, _send_updates consumes each collected token exactly once (Defer.get precondition) and no other, consumed tokens satisfy applied_at == due, no pending update crosses a call boundary. ASSUMED: behavioural contracts of user processes and of Defer.get / Store.apply_update (trusted, bounded-checked), floats as reals, no global_time_precision (that instance is bounded only), interval > 0, and the region of the known finding F-C03-shrink is excluded by an explicit environment assumption. BOUNDED: the observable form (accumulating variables at every emitted time == sum of updates whose interval ended) and the token discipline on the real engine.',
      drivers=[('bounded.sched', ['--prop', 'C01']), ('bounded.struct', ['--prop', 'C01']), ('bounded.c12', [])], rule=SCHED_RULE, assumptions=[FLOATS])
 prop('C02', 'other',
-     'PROVED on the real source of Engine.run_for (463 obligations, all loops cut at invariants, any number of processes visited in any order, any sequence of timestep/condition answers, any call sequence -- the invariant is the pre- and postcondition): at the only call site of _process_update the timestep handed over equals future - process_time (ghost assert; under forced truncation it is end_time - process_time), tokens carry g_dt == g_due - g_start, and after run_for(force_complete=True) every front is at global_time with nothing pending, which discharges the two run-time asserts of _check_complete as obligations. BOUNDED: clock-like variables equal elapsed time on the real engine, contiguity of intervals.',
+     'PROVED on the real source of Engine.run_for (511 obligations, all loops cut at invariants, any number of processes visited in any order, any sequence of timestep/condition answers, any call sequence -- the invariant is the pre- and postcondition): at the only call site of _process_update the timestep handed over equals future - process_time (ghost assert; under forced truncation it is end_time - process_time), tokens carry g_dt == g_due - g_start, and after run_for(force_complete=True) every front is at global_time with nothing pending, which discharges the two run-time asserts of _check_complete as obligations. BOUNDED: clock-like variables equal elapsed time on the real engine, contiguity of intervals.',
      drivers=[('bounded.sched', ['--prop', 'C02']), ('bounded.struct', ['--prop', 'C02'])], rule=SCHED_RULE, assumptions=[FLOATS])
 prop('C03', 'other',
-     'PROVED on the real source of Engine.run_for (463 obligations, all loops cut at invariants, any number of processes visited in any order, any sequence of timestep/condition answers, any call sequence -- the invariant is the pre- and postcondition): every assignment to global_time keeps old <= new <= end_time, the call returns with global_time == start + interval exactly, full_step is strictly positive whenever finite (strict progress of every applying iteration), emit times are strictly increasing for emit_step 1. NOT PROVED (bounded only): termination (watchdog incl. all-quiet and empty composites), the decimal-grid clause under global_time_precision (float rounding is outside the real-number encoding).',
+     'PROVED on the real source of Engine.run_for (511 obligations, all loops cut at invariants, any number of processes visited in any order, any sequence of timestep/condition answers, any call sequence -- the invariant is the pre- and postcondition): every assignment to global_time keeps old <= new <= end_time, the call returns with global_time == start + interval exactly, full_step is strictly positive whenever finite (strict progress of every applying iteration), emit times are strictly increasing for emit_step 1. NOT PROVED (bounded only): termination (watchdog incl. all-quiet and empty composites), the decimal-grid clause under global_time_precision (float rounding is outside the real-number encoding).',
      driver='bounded.sched', driver_args=['--prop', 'C03'], rule=SCHED_RULE, assumptions=[FLOATS])
 prop('C12', 'other',
      'PROVED: in run_for the ghost emit log only grows by the current global_time, right after _send_updates (which ends with the step phase), with strictly increasing times for emit_step 1 and non-decreasing times otherwise. BOUNDED: one configuration record first, a row after construction and after every batch, rows equal to the projection of the hierarchy on the emit flags (Store.emit_data and the emitter are outside the translated subset).',
